@@ -31,7 +31,23 @@ HAND = {
  "mulh_consts": ["li t0, -7", "li t1, 3", "mulh t2, t0, t1", "mulhu t3, t0, t1", "mulhsu t4, t0, t1", "div t5, t0, t1", "rem t6, t0, t1"],
  "shift_big": ["li t0, 1", "li t1, 33", "sll t2, t0, t1", "sra t3, t0, t1", "slli t4, t0, 31", "srai t5, t4, 31"],
 }
+HANDLER = "main:\n    la t0, handler\n    csrrw zero, utvec, t0\n" + EXIT + "handler:\n    csrrw a0, uscratch, a0\n%s    csrrw a0, uscratch, a0\n    uret\n"
+
+
+def handler(body):
+    return HANDLER % "".join("    %s\n" % l for l in body)
+
+
 HAND_RAW = {
+ # RARS interrupt handler idiom: swap a0 with uscratch to get the save area, spill, work, reload, swap back
+ "handler_spill_reload": handler(["sw t0, 0(a0)", "sw t1, 4(a0)", "li t0, 5", "mv t1, t0", "lw t0, 0(a0)", "lw t1, 4(a0)"]),
+ "handler_clobber": handler(["sw t0, 0(a0)", "sw t1, 0(a0)", "lw t0, 0(a0)"]),
+ "handler_csr_read_back": handler(["sw t0, 0(a0)", "csrrw t1, uscratch, zero", "lw t0, 0(a0)", "csrrw zero, uscratch, t1"]),
+ # KNOWN FINDING (see known_findings.json): a register read from a CSR whose recorded content was lost
+ # after a modification is tagged "value in the CSR" like the pointer read on entry, so the reload
+ # through it is claimed to restore t0
+ "handler_tag_after_setbits": handler(["sw t0, 0(a0)", "csrrsi zero, uscratch, 1", "csrrw a0, uscratch, a0", "lw t0, 0(a0)", "csrrw a0, uscratch, a0"]),
+ "handler_tag_after_overwrite": handler(["sw t0, 0(a0)", "lw t1, 8(a0)", "csrrw zero, uscratch, t1", "li t1, 0", "csrrw t2, uscratch, zero", "lw t0, 0(t2)"]),
  "branch_join": "main:\n    li t0, 1\n    beqz a0, other\n    li t1, 5\n    j join\nother:\n    li t1, 5\n    li t0, 2\njoin:\n    add t2, t1, t1\n" + EXIT,
  "branch_join_slot": "main:\n    addi sp, sp, -4\n    beqz a0, skip\n    sw s0, 0(sp)\nskip:\n    li s0, 7\n    lw s0, 0(sp)\n    addi sp, sp, 4\n" + EXIT,
  "loop_counter": "main:\n    li t0, 0\n    li t1, 10\nloop:\n    addi t0, t0, 1\n    blt t0, t1, loop\n    mv a0, t0\n" + EXIT,
@@ -101,6 +117,42 @@ def families(tier="quick"):
     fam["arith"] = [{"name": "ari_" + "_".join("%x" % i for i in c),
                      "text": ".data\ndata: .word 1, 2\n.text\n" + wrap([B[i] for i in c])}
                     for c in itertools.product(range(len(B)), repeat=k)]
+    # environment calls with a known service number (what the service reads and writes), and CSR instructions
+    S = [1, 4, 5, 8, 9, 11, 12, 30, 34, 93, 10]
+    PRE = ["li a0, 3", "li a1, 4", "mv a0, t0", "nop"]
+    POST = ["mv t1, a0", "mv t1, a1", "add t1, a0, a1", "nop"]
+    fam["ecall"] = [{"name": "ecall_%d_%x_%x" % (n, i, j),
+                     "text": wrap([PRE[i], "li a7, %d" % n, "ecall", POST[j]])}
+                    for n in S for i in range(len(PRE)) for j in range(len(POST))]
+    fam["ecall"] += [{"name": "ecall_exit2_arm_%x" % i,
+                      "text": "main:\n    %s\n    beqz t2, other\n    li a7, 93\n    ecall\nother:\n    li a0, 0\n" % PRE[i] + EXIT}
+                     for i in range(len(PRE))]
+    C = ["csrrw t1, uscratch, t0", "csrrs t2, uie, t0", "csrrc zero, uie, t0", "csrrs t1, ucause, zero", "csrrwi zero, ustatus, 1",
+         "li t0, 16", "mv t3, t1", "sw t1, 4(sp)"]
+    fam["csr"] = [{"name": "csr_%x_%x_%x" % c, "text": wrap([C[c[0]], C[c[1]], C[c[2]]])}
+                  for c in itertools.product(range(len(C)), repeat=3)]
+    # read-modify-write traffic on ONE csr: a tracked csr fact must not survive csrrs/csrrc/csrr?i on it,
+    # nor an overwrite of the register it is described by
+    C2 = ["csrrw t1, uscratch, t0", "csrrs t2, uscratch, t0", "csrrc zero, uscratch, t1", "csrrwi zero, uscratch, 1",
+          "csrrsi t1, uscratch, 2", "csrrs t1, uscratch, zero", "li t0, 16", "mv t3, t1", "csrrw t0, uscratch, t0"]
+    fam["csr2"] = [{"name": "csr2_%x_%x_%x" % c, "text": wrap([C2[c[0]], C2[c[1]], C2[c[2]]])}
+                   for c in itertools.product(range(len(C2)), repeat=3)]
+    # interrupt handlers: every 3-instruction body between the two uscratch swaps; a store is only
+    # generated while a0 holds the save-area pointer (a store through the interrupted program's a0
+    # could alias the save area: the analysis assumes tracked memory is reached only through its base)
+    HB = ["sw t0, 0(a0)", "lw t0, 0(a0)", "sw t1, 4(a0)", "lw t1, 4(a0)", "li t0, 5", "mv t1, t0", "csrrw t2, uscratch, zero",
+          "csrrw a0, uscratch, a0", "lw t1, 0(a0)"]
+
+    def stores_only_through_save_area(c):
+        swapped = False
+        for i in c:
+            if HB[i].startswith("csrrw a0"):
+                swapped = not swapped
+            elif HB[i].startswith("sw") and swapped:
+                return False
+        return True
+    fam["handler"] = [{"name": "handler_%x_%x_%x" % c, "text": handler([HB[i] for i in c])}
+                      for c in itertools.product(range(len(HB)), repeat=3) if stores_only_through_save_area(c)]
     # the two alphabets interleaved
     fam["mix"] = [{"name": "mix_%x_%x_%x" % c, "text": ".data\ndata: .word 1, 2\n.text\n" + wrap([A[c[0]], B[c[1]], A[c[2]]])}
                   for c in itertools.product(range(len(A)), range(len(B)), range(len(A)))]
